@@ -97,11 +97,12 @@ class MultiMomentGaugeTransformer(abc.ABC):
                 and set(op.tags).intersection(context.tags_to_ignore)
             ):  # skip the moment if the op is tagged to be ignored
                 return False
-            if op.gate:
-                if op in self.target:
-                    has_target_gates = True
-                elif op not in self.supported_gates:
-                    return False
+            if op.gate is None:  # e.g. a sub-circuit: gauges cannot be pulled through it
+                return False
+            if op in self.target:
+                has_target_gates = True
+            elif op not in self.supported_gates:
+                return False
         return has_target_gates
 
     def __call__(
